@@ -3509,6 +3509,15 @@ class TextWrappingSerializer(PrettySerializer):
         else:
             return 0
 
+    def _fetch_following(self, node: NodeBase) -> Optional[NodeBase]:
+        # nodes beyond the serialized (sub-)tree are not part of the stream
+        following = node.fetch_following()
+        if following is not None and not any(
+            a is self._serialization_root for a in following.iterate_ancestors()
+        ):
+            return None
+        return following
+
     def _node_fits_remaining_line(self, node: NodeBase) -> bool:
         return self._required_space(node, self._available_space) is not None
 
@@ -3579,7 +3588,7 @@ class TextWrappingSerializer(PrettySerializer):
         if self._whitespace_is_legit_after_node(node):
             return 0
 
-        if (following := node.fetch_following()) is None:
+        if (following := self._fetch_following(node)) is None:
             return 0
 
         if not isinstance(following, TextNode):
@@ -3655,7 +3664,7 @@ class TextWrappingSerializer(PrettySerializer):
 
         if self._whitespace_is_legit_after_node(node) and not (
             (
-                (following := node.fetch_following()) is not None
+                (following := self._fetch_following(node)) is not None
                 and self._node_fits_remaining_line(following)
             )
         ):
@@ -3693,7 +3702,7 @@ class TextWrappingSerializer(PrettySerializer):
 
             if (
                 (last_node is last_node.parent.last_child)
-                or (following := last_node.fetch_following()) is not None
+                or (following := self._fetch_following(last_node)) is not None
                 and (
                     self._whitespace_is_legit_before_node(following)
                     and self._required_space(
